@@ -88,6 +88,14 @@ def cases(tier, seed, phase):
     for j in range(nrand):
         for v in range(3):
             yield (lambda j=j, v=v: rand_case(seed, j, v))
+    # size-limited reads: limits just below / at / above the wire size (negative = relative to it)
+    for j in range(nrand):
+        for v in range(3):
+            def mk(j=j, v=v):
+                c = rand_case(seed, 100000 + j, v)
+                c['limit'] = rng_for(seed, 'c05lim', j).choice([-3, -2, -1, 0, 1, 7, 1, 20, 5000])
+                return c
+            yield mk
 
 
 def rand_case(seed, j, v):
@@ -138,7 +146,7 @@ def impl_read(buf0, segs, max_size=None):
     except ConnectionLost:
         return ('err', 'connectionLost'), sock
     except MessageTooBig:
-        return ('err', 'messageTooBig'), sock
+        return ('toobig', io.recv_buffer, sock.unread()), sock
     return ('ok', data, io.recv_buffer, sock.unread()), sock
 
 
@@ -162,18 +170,33 @@ def run_case(case, model):
         stream = bytes.fromhex(case['stream'])
         msg = None
     buf0, segs = resolve_seg(stream, case)
-    res, sock = impl_read(buf0, segs)
+    limit = case.get('limit')
+    if limit is not None and limit < 0:
+        limit = max(1, len(stream) - len(bytes.fromhex(case.get('trail', ''))) + limit + 2)
+    res, sock = impl_read(buf0, segs, limit)
     # the model sees the pieces recv() actually returned (cut to 4096) plus what was never read
     pieces = list(sock.recvd) + list(sock.segments)
-    mres = model.ask('data run - %s %s' % (hx(buf0), hxl(pieces)))
+    mres = model.ask('data run %s %s %s' % ('-' if limit is None else limit, hx(buf0), hxl(pieces)))
     if res[0] == 'ok':
         canon = 'ok %s %s %s' % (hx(res[1]), hx(res[2]), hx(res[3]))
+    elif res[0] == 'toobig':
+        canon = 'toobig %s %s' % (hx(res[1]), hx(res[2]))
     else:
         canon = 'err ' + res[1]
     if canon != mres and mismatch is None:
         mismatch = {'op': 'data run', 'impl': canon, 'model': mres, 'buf0': buf0.hex(), 'pieces': [p.hex() for p in pieces]}
     # ---- property monitor (implementation observables only)
-    if case['kind'] == 'msg':
+    if limit is not None:
+        ref, _ = impl_read(b'', [stream] if stream else [], limit)
+        a = (res[0], res[1], res[2] + res[3]) if res[0] == 'ok' else (res[0], res[1] + res[2]) if res[0] == 'toobig' else res
+        b = (ref[0], ref[1], ref[2] + ref[3]) if ref[0] == 'ok' else (ref[0], ref[1] + ref[2]) if ref[0] == 'toobig' else ref
+        if a != b:
+            hits.append(hit('c05.size-limit-segmentation-dependent', 'with a size limit the outcome depends on how the stream was cut',
+                            observed=[str(x) for x in a], expected=[str(x) for x in b]))
+        elif res[0] == 'toobig' and case['kind'] == 'msg' and res[1] + res[2] != trail:
+            hits.append(hit('c05.oversized-message-left-in-stream', 'an oversized message was not consumed up to its end-of-data line',
+                            observed=(res[1] + res[2]).hex(), expected=trail.hex()))
+    elif case['kind'] == 'msg':
         want = normalize(msg)
         if res[0] != 'ok':
             hits.append(hit('c05.reader-fails-on-sender-output', 'DataReader did not return on DataSender output',
@@ -194,7 +217,7 @@ def run_case(case, model):
                             observed=[x.hex() if isinstance(x, bytes) else x for x in a],
                             expected=[x.hex() if isinstance(x, bytes) else x for x in b]))
     n = len(stream)
-    tags = [case['kind'], 'len<=8' if n <= 8 else 'len<=16' if n <= 16 else 'len<=4096' if n <= 4096 else 'len>4096',
+    tags = [case['kind'] + ('+limit' if limit is not None else ''), 'len<=8' if n <= 8 else 'len<=16' if n <= 16 else 'len<=4096' if n <= 4096 else 'len>4096',
             'segs=%s' % ('0' if not segs else '1' if len(segs) == 1 else '2-4' if len(segs) <= 4 else '5+'),
             'buf0' if buf0 else 'nobuf0']
     if msg is not None and len(case['parts']) > 1:
